@@ -63,8 +63,9 @@ def spell(v):
         if ex == 0 and fr == 0:
             return "(-0.0)" if sign else "0.0"
         if ex == 0:
-            raise Infra("subnormal in lattice")
-        t = "0x1.%013xp%+d" % (fr, ex - 1023)
+            t = "0x0.%013xp-1022" % fr           # subnormal
+        else:
+            t = "0x1.%013xp%+d" % (fr, ex - 1023)
         return "(-%s)" % t if sign else t
     if k == "nan":
         return "(0/0)"
@@ -406,9 +407,9 @@ def run(prop, tier, family="num"):
             else:
                 run_pairs(rep, drv, cfg, fam)
         rep.assumptions += [
-            "only results the manual determines are compared: '^' only by subtype; float '%' / math.fmod only for finite operands "
-            "with a common int64 scaling (zero results modulo sign); float '//' unless the rounded quotient is an inexact integer; "
-            "subnormal results, overflowing decimal exponents and NaN payloads are not compared",
+            "only results the manual determines are compared: '^' only by subtype; float '%' / math.fmod for every finite dividend and "
+            "finite non-zero divisor (zero results modulo sign); float '//' unless the rounded quotient is an inexact integer; "
+            "overflowing decimal exponents and NaN payloads are not compared; subnormal operands and results are compared",
             "an integer that has no exact float representation may convert to either neighbour (manual 3.4.3): both are accepted",
             "numeric strings in bitwise operators, math.tointeger and math.abs of strings are left open (version dependent)",
             "error messages are not compared, only error versus value"]
